@@ -248,6 +248,30 @@ def check_dispatch(ck: Check) -> None:
         ck.violated("P7", "MAX_MESSAGE_SIZE folds to 33,554,432", "folds to %r" % (mx,), "")
 
 
+def check_plumbing(ck: Check) -> None:
+    s = ck.summ("skepticoin.networking.remote_peer.ConnectedRemotePeer.handle_receive_data", 0)
+    sp = Spec(s, ("self", "data"))
+    calls = [e for e in s.events if e.kind == "call" and MR + "receive" in e.targets]
+    if len(calls) == 1 and calls[0].term[2] == (sp.term("data"),) and calls[0].parts[0][1] == sp.term("self.receiver") and not residual(calls[0], ()):
+        ck.ok("P1", "handle_receive_data passes every chunk, once and unmodified, to self.receiver.receive", "", calls[0].loc)
+    else:
+        ck.violated("P1", "handle_receive_data passes every chunk, once and unmodified, to self.receiver.receive", "%s" % [e.describe()[:120] for e in calls], s.fi.loc)
+    init = ck.summ("skepticoin.networking.remote_peer.ConnectedRemotePeer.__init__", 0)
+    st = [e for e in init.events if e.kind == "store" and e.term == ("a", ("v", init.fi.params[0]), "receiver")]
+    if len(st) == 1 and st[0].value == ("call", ("g", MR[:-1]), (("v", init.fi.params[0]),), ()):
+        ck.ok("P1", "each connection owns one MessageReceiver, created with the connection", "", st[0].loc)
+    else:
+        ck.violated("P1", "each connection owns one MessageReceiver, created with the connection", "%s" % [show(e.value) for e in st], init.fi.loc)
+    lp = ck.summ("skepticoin.networking.local_peer.LocalPeer.handle_remote_peer_selector_event", 0)
+    spl = Spec(lp, ("self", "key", "mask"))
+    recv = spl.term("key.fileobj.recv(1024)")
+    pas = [e for e in lp.events if e.kind == "call" and "skepticoin.networking.remote_peer.ConnectedRemotePeer.handle_receive_data" in e.targets]
+    if len(pas) == 1 and pas[0].term[2] and pas[0].term[2][0][0] == "call" and pas[0].term[2][0][1][0] == "a" and pas[0].term[2][0][1][2] == "recv":
+        ck.ok("P1", "the bytes returned by recv() are handed to the connection's parser unchanged", "", pas[0].loc)
+    else:
+        ck.violated("P1", "the bytes returned by recv() are handed to the connection's parser unchanged", "%s" % [e.describe()[:120] for e in pas], lp.fi.loc)
+
+
 def check(ck: Check) -> None:
     ck.explanations.append(
         "C11: chunk-independence follows from a syntactic discipline of the incremental parser. The checker decides premises P1–P7 on the "
@@ -256,3 +280,4 @@ def check(ck: Check) -> None:
         "premises => property is the proof sketch in DESIGN.md.")
     ck.run("P1-P7", "premises on MessageReceiver.receive", lambda: check_receive(ck))
     ck.run("P7b", "dispatch and initial state", lambda: check_dispatch(ck))
+    ck.run("P1b", "socket -> parser plumbing", lambda: check_plumbing(ck))
